@@ -28,4 +28,4 @@ PARALLEL = 14
 
 
 def groups(tier):
-    return mu_groups(tags=["C01"]) + mu_lemmas(tags=["C01"]) + cv_groups(tags=["C01"])
+    return mu_groups(tags=["C01"], tier=tier) + mu_lemmas(tags=["C01"]) + cv_groups(tags=["C01"])
